@@ -2,6 +2,9 @@
 # false-alarm measurement: behaviour-preserving refactorings (/verif/refactors/<name>/patch.diff) x all checks,
 # on scratch copies (6 in parallel). usage: tools/refmatrix.sh [name ...] (default all). Output /tmp/refout/<name>.txt
 cd /verif
+# snapshot of the analyser and its reviewed tables: edits made while the corpus runs do not leak into it
+export SNAP=$(mktemp -d /tmp/snap.XXXXXX); mkdir -p $SNAP/bin $SNAP/spec; cp ${DHCPVERIF_BIN:-bin/dhcpverif} $SNAP/bin/dhcpverif; cp spec/*.json $SNAP/spec/; cp known_findings.json $SNAP/; unset DHCPVERIF_BIN
+trap 'rm -rf $SNAP' EXIT
 mkdir -p /tmp/refout
 names="$@"; [ -z "$names" ] && names=$(ls refactors | grep -v PROMPT)
 echo $names | tr ' ' '\n' | xargs -P 8 -I{} tools/runpatch.sh {} refactors/{}/patch.diff /tmp/refout
